@@ -20,6 +20,11 @@ package store
 //@   | && forall_int(a, forall_int(b, validPair(bs, a, b) && seen(a, b, i1, i2) && matchAt(path, bs, a, b) ==> len(prefixAt(bs, a, b)) <= len(lp)))
 
 //@ func mostSpecificMatchingBackend props(C18,C17)
+//@   local b range 1 0 _
+//@   local backends param 0 1
+//@   local closestMatch var 0 0 string
+//@   local longestMatchingPath var 0 1 string
+//@   local path param 0 0
 //@   requires forall(i, 0, len(backends), backends[i] != nil && idAt(backends, i) != "")
 //@   assigns nothing
 //@   ensures[C18:none] r1 != nil <==> noneSeen(path, backends, len(backends), -1)
@@ -42,6 +47,15 @@ package store
 // part i is the i-th 1,000,000-byte window of the remainder and is stored under "<name>.part<i>".
 
 //@ func writeBlobParts props(C19,C07)
+//@   local ID define 0 0 fmt . Sprintf ( "%s.part%d" , _ , _ )
+//@   local blobName param 0 2
+//@   local bytes param 0 1
+//@   local errs define 0 0 make ( chan error , _ )
+//@   local i define 0 0 0
+//@   local k define 0 0 datastore . NewKey ( _ , blobPartsKind , _ , 0 , nil )
+//@   local p define 0 0 & blobPart { ID : _ , Bytes : _ , StartTime : _ , }
+//@   local partCount define 0 0 ( len ( _ ) / fieldByteLimit ) + 1
+//@   local partNames var 0 0 [ ] string
 //@   assigns nothing
 //@   ghost puts int = 0
 //@   call datastore.NewKey
@@ -68,6 +82,8 @@ package store
 //@     invariant[C19:every-reported-failure-is-queued] failures == chlen(errs)
 
 //@ func newBlob props(C19,C07)
+//@   local blobName param 0 2
+//@   local bytes param 0 1
 //@   assigns nothing
 //@   call writeBlobParts
 //@     assert[C19:remainder-goes-to-parts] base(arg1) == base(bytes) && off(arg1) == off(bytes) + 1000000 && len(arg1) == len(bytes) - 1000000 && arg2 == blobName
@@ -76,6 +92,9 @@ package store
 //@   |   && len(r0.Parts) == (len(bytes) - 1000000) / 1000000 + 1 && forall(j, 0, len(r0.Parts), r0.Parts[j] == sprintf("%s.part%d", blobName, j))
 
 //@ func (*blob).read props(C19,C07)
+//@   local bp recv 0 0
+//@   local keys var 0 0 [ ] * datastore . Key
+//@   local parts var 0 0 [ ] * blobPart
 //@   requires bp != nil
 //@   ghost fetched int = 0
 //@   call datastore.GetMulti
@@ -95,6 +114,8 @@ package store
 // of the two directions of one exchange can never land on the same part keys. Records are written and read under the
 // ids they carry.
 //@ func newStoredRequest props(C19,C07)
+//@   local r param 0 1
+//@   local sr define 0 0 & storedRequest { BackendID : _ . BackendID , RequestID : _ . RequestID , User : _ . User , StartTime : _ . StartTime , Completed : _ . Completed , }
 //@   requires r != nil
 //@   ghost blobs int = 0
 //@   ghost puts int = 0
@@ -108,6 +129,8 @@ package store
 //@   ensures[C19:request-record-written-once] r1 == nil ==> puts == 1 && r0 != nil && r0.BackendID == r.BackendID && r0.RequestID == r.RequestID
 
 //@ func newStoredResponse props(C19,C07)
+//@   local r param 0 1
+//@   local sr define 0 0 & storedResponse { BackendID : _ . BackendID , RequestID : _ . RequestID , Latency : time . Since ( _ . StartTime ) , ResponseSize : len ( _ . Contents ) , }
 //@   requires r != nil
 //@   ghost blobs int = 0
 //@   ghost puts int = 0
@@ -121,12 +144,15 @@ package store
 //@   ensures[C19:response-record-written-once] r1 == nil ==> puts == 1 && r0 != nil && r0.BackendID == r.BackendID && r0.RequestID == r.RequestID
 
 //@ func readStoredRequest props(C19,C07)
+//@   local backendID param 0 1
+//@   local requestID param 0 2
 //@   ghost gets int = 0
 //@   call datastore.Get
 //@     assert[C19:request-record-read-under-the-named-ids] gets == 0 && keyKind(arg1) == sprintf("%s%q", "req:", backendID) && keyName(arg1) == requestID
 //@     do gets = gets + 1
 //@   ensures[C19:request-record-or-error] r1 == nil ==> r0 != nil
 //@ func readStoredResponse props(C19,C07)
+//@   local requestID param 0 2
 //@   ghost gets int = 0
 //@   call datastore.Get
 //@     assert[C19:response-record-read-under-the-named-request-id] gets == 0 && keyKind(arg1) == "response" && keyName(arg1) == requestID
@@ -134,6 +160,7 @@ package store
 //@   ensures[C19:response-record-or-error] r1 == nil ==> r0 != nil
 
 //@ func (*storedRequest).toRequest props(C19,C07)
+//@   local r recv 0 0
 //@   requires r != nil
 //@   ghost reads int = 0
 //@   ghost got []byte
@@ -143,6 +170,7 @@ package store
 //@     do reads = reads + 1
 //@   ensures[C19:request-rebuilt-from-its-record] r1 == nil ==> r0 != nil && r0.BackendID == r.BackendID && r0.RequestID == r.RequestID && r0.User == r.User && r0.Completed == r.Completed && r0.Contents == got && reads == 1
 //@ func (*storedResponse).toResponse props(C19,C07)
+//@   local r recv 0 0
 //@   requires r != nil
 //@   ghost reads int = 0
 //@   ghost got []byte
@@ -154,6 +182,7 @@ package store
 
 // ---- the Store methods over these records (C19): plain delegations under the ids given ----
 //@ func (*persistentStore).WriteRequest props(C19,C07)
+//@   local r param 0 1
 //@   requires r != nil
 //@   ghost n int = 0
 //@   call newStoredRequest
@@ -161,6 +190,8 @@ package store
 //@     do n = n + 1
 //@   ensures[C19:request-written-once] n == 1
 //@ func (*persistentStore).ReadRequest props(C19,C07)
+//@   local backendID param 0 1
+//@   local requestID param 0 2
 //@   ghost rec *storedRequest = nil
 //@   ghost n int = 0
 //@   call readStoredRequest
@@ -170,6 +201,8 @@ package store
 //@   call (*storedRequest).toRequest
 //@     assert[C19:request-rebuilt-from-the-record-read] n == 1 && arg0 == rec
 //@ func (*persistentStore).ReadResponse props(C19,C07)
+//@   local backendID param 0 1
+//@   local requestID param 0 2
 //@   ghost rec *storedResponse = nil
 //@   ghost n int = 0
 //@   call readStoredResponse
@@ -179,8 +212,10 @@ package store
 //@   call (*storedResponse).toResponse
 //@     assert[C19:response-rebuilt-from-the-record-read] n == 1 && arg0 == rec
 //@ func (*persistentStore).WriteResponse props(C19,C07)
+//@   local r param 0 1
 //@   requires r != nil
 //@ func (*persistentStore).WriteResponse$2 props(C19,C07)
+//@   local r param 1 1
 //@   at _, err = newStoredResponse(ctx, r)
 //@   requires r != nil
 //@   ghost n int = 0
@@ -191,6 +226,9 @@ package store
 
 // ---- who may act as the agent of a backend (C17): decided from the registration stored under that very id ----
 //@ func (*persistentStore).IsBackendUserAllowed props(C17,C07)
+//@   local b var 0 0 types . Backend
+//@   local backendID param 0 2
+//@   local backendUser param 0 1
 //@   ghost gets int = 0
 //@   call datastore.Get
 //@     assert[C17:registration-read-under-the-named-backend-id] gets == 0 && keyKind(arg1) == "backend" && keyName(arg1) == backendID
@@ -202,6 +240,8 @@ package store
 // ---- and never a backend whose agent has not been seen within the last five minutes ----
 // Assumption (datastore, trusted): entities returned by a query are non-nil and carry a non-empty id.
 //@ func (*persistentStore).hasBackend props(C18,C07)
+//@   local backendID param 0 1
+//@   local lastSeenTimeout param 0 2
 //@   ghost gets int = 0
 //@   ghost getFailed bool = false
 //@   ghost age int = 0
@@ -217,6 +257,8 @@ package store
 //@   ensures[C18:alive-iff-tracker-read-and-younger-than-the-timeout] r0 <==> (gets == 1 && !getFailed && sinces == 1 && age < lastSeenTimeout)
 
 //@ func (*persistentStore).lookupSharedBackend props(C18,C07)
+//@   local backends var 0 0 [ ] * types . Backend
+//@   local path param 0 1
 //@   ghost queries int = 0
 //@   ghost qFailed bool = false
 //@   ghost bid string = ""
@@ -242,6 +284,9 @@ package store
 //@   ensures[C18:live-shared-match-is-returned] matched == 1 && !matchErr && alive ==> r1 == nil && r0 == bid
 
 //@ func (*persistentStore).LookupBackend props(C18,C17,C07)
+//@   local backends var 0 0 [ ] * types . Backend
+//@   local endUser param 0 1
+//@   local path param 0 2
 //@   ghost queries int = 0
 //@   ghost qFailed bool = false
 //@   ghost bid string = ""
